@@ -41,7 +41,8 @@ RULE = (
     "or a Parent / Child detached from another session after drawn steps (load collections or not, expire some attributes, set some attributes, remove / append "
     "children); target session prepared by drawn steps (load identities, load collections, set attributes to other values); merge(load=True|False), then merged again. "
     "Non-trivial: the source is partially loaded (some column attribute or relationship absent from it) and the target session already holds at least one of its "
-    "identities with a different value for an attribute the source carries (load=False: holds one of its identities at all - values cannot differ for a clean source); "
+    "identities with a different value for an attribute the source carries (load=False: holds one of its identities at all), or the source has a scalar relationship (many-to-one "
+    "Child.parent / one-to-one Parent.profile) loaded as None while the target session holds the identity with that relationship loaded non-None (row changed in between); "
     "distinct = canonical JSON of the case"
 )
 ASSUMPTIONS = [
@@ -58,7 +59,8 @@ ASSUMPTIONS = [
 NAMES = ["a", "b", "c", "d"]
 PCOLS = ["name", "x", "y"]
 CCOLS = ["name", "x"]
-COLS = {"parent": PCOLS + ["owner_id"], "child": CCOLS + ["parent_id"], "tag": ["name"]}
+COLS = {"parent": PCOLS + ["owner_id"], "child": CCOLS + ["parent_id"], "tag": ["name"], "profile": ["x", "parent_id"]}
+SCALARS = {"child": ("parent",), "parent": ("profile",)}  # scalar relationships that are walked (both keep the default merge cascade)
 
 
 def _val(attr, v):
@@ -84,11 +86,13 @@ class _Case:
             "parent": {i + 1: {"name": NAMES[p[0] % 4], "x": p[1], "y": p[2], "owner_id": None} for i, p in enumerate(case["parents"])},
             "child": {i + 1: {"parent_id": None if c[0] is None else c[0] % n_p + 1, "name": NAMES[c[1] % 4], "x": c[2]} for i, c in enumerate(case["children"])},
             "tag": {i + 1: {"name": NAMES[i % 4]} for i in range(self.n_t)},
+            "profile": {i + 1: {"parent_id": pid, "x": i} for i, pid in enumerate(dict.fromkeys(p % n_p + 1 for p in case.get("profiles", [])))},
         }
         self.links = {(l[0] % n_p + 1, l[1] % self.n_t + 1) for l in case["links"]} if self.n_t else set()
         F.raw_insert(self.rc, "parent", [dict(id=k, **v) for k, v in self.db["parent"].items()])
         F.raw_insert(self.rc, "child", [dict(id=k, **v) for k, v in self.db["child"].items()])
         F.raw_insert(self.rc, "tag", [dict(id=k, **v) for k, v in self.db["tag"].items()])
+        F.raw_insert(self.rc, "profile", [dict(id=k, **v) for k, v in self.db["profile"].items()])
         F.raw_insert(self.rc, "parent_tag", [dict(parent_id=a, tag_id=b) for a, b in sorted(self.links)])
         self.sessions = []
         self.classes = set()
@@ -96,6 +100,7 @@ class _Case:
         self.child_dirty = False  # only objects reached through Parent.children are dirty
         self.src_has_pkless = False
         self.src_partial = False
+        self.stale = False  # the database was changed after the source was loaded so that a target loaded later sees another scalar value
 
     def close(self):
         for s in self.sessions:
@@ -193,6 +198,10 @@ class _Case:
                 src.tags
             else:
                 self.src_partial = True
+            if spec.get("load_profile"):
+                src.profile  # one-to-one, possibly loaded as None
+            else:
+                self.src_partial = True
         else:  # "dc"
             if not self.n_c:
                 src = s0.get(fam.Parent, 1)
@@ -213,6 +222,19 @@ class _Case:
             setattr(src, a, _val(a, v))
             self.src_dirty = True
         s0.close()  # everything is detached now; pending attribute history stays on the objects
+        if spec.get("stale") and not self.src_dirty and not self.child_dirty:
+            # the row changes after the source was loaded: a target session that loads the identity now holds a non-None scalar
+            # relationship where the (older, clean) source has it loaded as None
+            if _kind(src) == "child" and src.__dict__.get("parent", 0) is None and "parent_id" in src.__dict__:
+                pid = spec["idx"] % self.n_p + 1
+                self.rc.execute("UPDATE child SET parent_id = ? WHERE id = ?", (pid, src.__dict__["id"]))
+                self.db["child"][src.__dict__["id"]]["parent_id"] = pid
+                self.stale = True
+            elif _kind(src) == "parent" and src.__dict__.get("profile", 0) is None:
+                new_id = len(self.db["profile"]) + 1
+                self.rc.execute("INSERT INTO profile (id, parent_id, x) VALUES (?, ?, 9)", (new_id, src.__dict__["id"]))
+                self.db["profile"][new_id] = {"parent_id": src.__dict__["id"], "x": 9}
+                self.stale = True
         return src
 
     # ------------------------------------------------------------ target preparation
@@ -242,11 +264,16 @@ class _Case:
             root = ("child", spec["idx"] % self.n_c + 1)
         for op in self.case["target"]:
             k = op[0]
-            if k in ("root", "rootset", "rootkid"):
+            if k in ("root", "rootset", "rootkid", "rootscalar"):
                 if root is None:
                     continue
                 o = s1.get(fam.classes[root[0]], root[1])
                 self.classes.add("target-holds-identity")
+                if k == "rootscalar":
+                    v = getattr(o, SCALARS[root[0]][0])  # child.parent / parent.profile loaded in the target session
+                    if v is not None:
+                        self.t_keep.append(v)
+                        self.classes.add("target-scalar-loaded-non-none")
                 if k == "rootset" and self.case["load"]:
                     cols = PCOLS if root[0] == "parent" else CCOLS
                     if spec["kind"] == "tp":
@@ -335,7 +362,7 @@ def _walk_source(root):
         kind = _kind(o)
         cols = {a: o.__dict__[a] for a in ["id"] + COLS.get(kind, []) if a in o.__dict__}
         rels = {}
-        for rel in {"parent": ("children", "tags"), "child": ("parent",)}.get(kind, ()):
+        for rel in {"parent": ("children", "tags", "profile"), "child": ("parent",)}.get(kind, ()):
             if rel in o.__dict__:
                 v = o.__dict__[rel]
                 rels[rel] = list(v) if isinstance(v, list) else v
@@ -393,8 +420,23 @@ def check(case, ctx):
                     for a, v in cols.items():
                         if a != "id" and a in held and held[a] != v:
                             differs = True
+            nontrivial_scalar = False
             held_any = any(k.prior_loaded.get((_kind(o), cols.get("id"))) is not None for o, cols, rels in src_graph)
             nontrivial = k.src_partial and (differs or (not load and held_any and not graph_dirty))
+            root_kind = _kind(src)
+            for rel in SCALARS.get(root_kind, ()):
+                if rel in src.__dict__ and src.__dict__[rel] is None and not (not load and graph_dirty):
+                    lab = ("noload" if not load else "load") + "-scalar-none"
+                    k.classes.add(lab)
+                    held_root = prior_instances.get((root_kind, src.__dict__.get("id")))
+                    if held_root is None:
+                        k.classes.add(lab + "/target-absent")
+                    elif held_root.__dict__.get(rel) is not None:
+                        k.classes.add(lab + "/target-holds-non-none")
+                        nontrivial_scalar = True
+                    else:
+                        k.classes.add(lab + "/target-holds-none-or-unloaded")
+            nontrivial = nontrivial or nontrivial_scalar
             if differs:
                 k.classes.add("target-differs")
             if k.src_partial:
@@ -455,7 +497,8 @@ def check(case, ctx):
             pairs = []  # (source obj, target obj)
             memo = {}
             by_ident = {}
-            exp_rows = {"parent": {}, "child": {}, "tag": {}}  # (kind) -> target obj id() -> expected column values
+            exp_rows = {"parent": {}, "child": {}, "tag": {}, "profile": {}}
+            exp_scalar = {}  # (id(target), relname) -> (target, relname, merged value | None)  # (kind) -> target obj id() -> expected column values
             exp_children = {}  # id(target parent) -> [target children]
             exp_tags = {}
             exp_child_parent = {}  # id(target child) -> target parent | None
@@ -510,15 +553,25 @@ def check(case, ctx):
                             if got_ids != sorted(want_ids):
                                 fail(f"C45/relationship/{rel}/untouched-expected", f"{path}.{rel}: {'merge cascade is off' if rel in s_obj.__dict__ else 'not loaded on the source'}, "
                                      f"target has ids {got_ids}, before the merge {sorted(want_ids)}", observed=got_ids, expected=sorted(want_ids))
-                elif kind == "child" and "parent" in s_obj.__dict__:
-                    sp = s_obj.__dict__["parent"]
-                    tp = t_obj.parent
+                for rel in SCALARS.get(kind, ()):
+                    if rel not in s_obj.__dict__:
+                        continue
+                    sp = s_obj.__dict__[rel]
+                    # a scalar relationship loaded on the source (None included) is copied: the target carries the key as loaded,
+                    # so reading it needs no SQL, and it has the merged counterpart / None as value
+                    # (with load=True an element reached through the reverse collection skips its back-reference by design: root only)
+                    if rel not in t_obj.__dict__ and (not load or t_obj is merged):
+                        fail(f"C45/relationship/{rel}/loaded-on-source-not-loaded-on-target",
+                             f"{path}.{rel}: the source has it loaded ({sp!r}) but the merged {kind}#{sid} does not (load={load}); a read would lazy load instead of showing the merged state")
+                    tp = getattr(t_obj, rel)
                     if sp is None:
                         if tp is not None:
-                            fail("C45/relationship/parent/none-expected", f"{path}.parent: source has None, target {tp!r}")
+                            fail(f"C45/relationship/{rel}/none-expected", f"{path}.{rel}: the source has None loaded, the merged target has {tp!r} (load={load}, target held before: {prior_instances.get((kind, sid)) is not None})")
                     else:
-                        pair(sp, tp, f"{path}.parent")
-                    exp_child_parent[id(t_obj)] = (t_obj, tp)
+                        pair(sp, tp, f"{path}.{rel}")
+                    exp_scalar[(id(t_obj), rel)] = (t_obj, rel, tp)
+                    if rel == "parent":
+                        exp_child_parent[id(t_obj)] = (t_obj, tp)
 
             pair(src, merged, "root")
             note(nontrivial)
@@ -569,6 +622,9 @@ def check(case, ctx):
                         now = list(getattr(t_obj, rel))
                         if [id(x) for x in now] != [id(x) for x in t_list]:
                             fail(f"C45/idempotence/{rel}-changed", f"{rel} of {t_obj!r} changed by the second merge: {t_list} -> {now}")
+                for t_obj, rel, tp in exp_scalar.values():
+                    if rel not in t_obj.__dict__ or getattr(t_obj, rel) is not tp:
+                        fail(f"C45/idempotence/{rel}-changed", f"{rel} of {t_obj!r} changed by the second merge: {tp!r} -> {t_obj.__dict__.get(rel, '<unloaded>')!r}")
                 if load:
                     # the second merge autoflushed what the first one changed and must not have changed anything itself
                     mod = [repr(t) for _s, t, _p in pairs if s1.is_modified(t)]
@@ -579,7 +635,7 @@ def check(case, ctx):
             s1.commit()
             exp_db = {t: {i: dict(r) for i, r in rows.items()} for t, rows in k.prior_db.items()}
             exp_links = set(k.prior_links)
-            for kind in ("parent", "child", "tag"):
+            for kind in ("parent", "child", "tag", "profile") if load else ():
                 for s_obj, t_obj, path in pairs:
                     if _kind(s_obj) != kind:
                         continue
@@ -588,6 +644,16 @@ def check(case, ctx):
                         fail("C45/flush/no-primary-key", f"{path}: merged object has no primary key after commit")
                     row = exp_db[kind].setdefault(tid, {a: None for a in COLS[kind]})
                     row.update(exp_rows[kind][id(t_obj)])
+            if not load:
+                # load=False stamps state without history: nothing is written, whatever the (possibly older) source says
+                exp_children, exp_tags, exp_child_parent, exp_scalar = {}, {}, {}, {}
+            for t_obj, rel, tp in exp_scalar.values():
+                if rel == "profile":
+                    for prid, row in exp_db["profile"].items():
+                        if tp is not None and prid == tp.id:
+                            row["parent_id"] = t_obj.id
+                        elif k.prior_db["profile"].get(prid, {}).get("parent_id") == t_obj.id:
+                            row["parent_id"] = None
             for t_obj, t_list in exp_children.values():
                 pid = t_obj.id
                 new_ids = {c.id for c in t_list}
@@ -607,8 +673,9 @@ def check(case, ctx):
                 "parent": {r[0]: {"name": r[1], "x": r[2], "y": r[3], "owner_id": r[4]} for r in snap["parent"]},
                 "child": {r[0]: {"parent_id": r[1], "name": r[2], "x": r[3]} for r in snap["child"]},
                 "tag": {r[0]: {"name": r[1]} for r in snap["tag"]},
+                "profile": {r[0]: {"parent_id": r[1], "x": r[2]} for r in snap["profile"]},
             }
-            for t in ("parent", "child", "tag"):
+            for t in ("parent", "child", "tag", "profile"):
                 if got_db[t] != exp_db[t]:
                     bad = sorted(i for i in set(got_db[t]) | set(exp_db[t]) if got_db[t].get(i) != exp_db[t].get(i))
                     fail(f"C45/db-after-commit/{t}", f"{t} rows differ for ids {bad}: got {[got_db[t].get(i) for i in bad]}, expected {[exp_db[t].get(i) for i in bad]}",
@@ -666,16 +733,38 @@ def _cases(draw):
         spec["child_set"] = [] if clean else draw(st.lists(st.tuples(st.integers(0, 3), st.integers(0, 1), _v).map(list), max_size=2))
         spec["rm_child"] = None if clean else draw(_opt(3))
         spec["add_child"] = None if clean else draw(st.one_of(st.none(), _child_spec()))
+        spec["load_profile"] = draw(st.booleans())
+        spec["stale"] = draw(st.booleans())
+    case["profiles"] = draw(st.lists(st.integers(0, 2), max_size=2))
+    focus = draw(st.sampled_from([False, False, False, True, False, False]))
+    if focus:
+        # scalar relationship loaded as None on a clean detached source; target absent / holding it non-None (stale) / holding it None
+        case["load"] = draw(st.sampled_from([0, 0, 1]))
+        kind = draw(st.sampled_from(["dc", "dp"]))
+        spec = {"kind": kind, "idx": 0, "load_children": draw(st.booleans()), "load_tags": draw(st.booleans()), "load_child_parent": True, "load_profile": True,
+                "expire": draw(st.sampled_from([0, 0, 1, 2])), "set": [], "child_set": [], "rm_child": None, "add_child": None, "stale": draw(st.sampled_from([True, True, False]))}
+        if kind == "dc":
+            if not case["children"]:
+                case["children"] = [[None, 0, 0]]
+            case["children"][0][0] = None
+        else:
+            case["profiles"] = [p for p in case["profiles"] if p % n_p != 0]
     case["source"] = spec
     tops = []
+    fmode = draw(st.sampled_from(["scalar", "absent", "scalar", "other", "absent", "scalar"])) if focus else None
+    if fmode == "scalar":
+        tops.append(["rootscalar", 0, 0])
+    if fmode == "absent":
+        case["target"] = tops
+        return case
     if case["load"] and draw(st.integers(0, 7)):
         # most cases: the target session already holds the root identity with a pending change (and often its children)
         tops.append(["rootset", draw(st.integers(0, 2)), draw(_v)])
         if draw(st.booleans()):
             tops.append(["rootkid", draw(st.integers(0, 2)), draw(_v)])
     for _ in range(draw(st.integers(0, 4))):
-        t = draw(st.sampled_from(["load", "coll", "set", "root", "rootset", "rootset", "rootset", "rootkid", "rootkid"]))
-        if t in ("root", "rootset", "rootkid"):
+        t = draw(st.sampled_from(["load", "coll", "set", "root", "rootset", "rootset", "rootset", "rootkid", "rootkid", "rootscalar"]))
+        if t in ("root", "rootset", "rootkid", "rootscalar"):
             tops.append([t, draw(st.integers(0, 2)), draw(_v)])
         elif t == "load":
             tops.append(["load", draw(st.integers(0, 1)), draw(st.integers(0, 4))])
